@@ -34,6 +34,7 @@ class VLoop(asyncio.SelectorEventLoop):
         self.cycle = 0
         self.budget = 20000
         self.monitor = None
+        self.on_idle = None      # hook called when the loop would otherwise block forever; True = made progress
         self.failed = None
 
     def time(self) -> float:
@@ -54,14 +55,20 @@ class VLoop(asyncio.SelectorEventLoop):
             h._scheduled = False
             if self._timer_cancelled_count:
                 self._timer_cancelled_count -= 1
-        if not self._ready and not self._stopping:
-            if sched:
+        while not self._ready and not self._stopping:
+            if sched and sched[0]._when != float("inf"):      # a timer at +inf (sleep_forever) never fires
                 when = sched[0]._when
                 if when > self._vtime:
                     self._vtime = when
-            else:
-                self.failed = "deadlock"
-                raise Deadlock("no ready callback and no timer")
+                break
+            if self.on_idle is not None and self.on_idle(self):
+                # the hook claims progress; look again (it must have queued a callback or a timer)
+                while sched and sched[0]._cancelled:
+                    h = heapq.heappop(sched)
+                    h._scheduled = False
+                continue
+            self.failed = "deadlock"
+            raise Deadlock("no ready callback and no timer")
         if self.monitor is not None:
             self.monitor(self)
         super()._run_once()
